@@ -509,6 +509,9 @@ func ruleGCIter(c *Ctx, P *Program, tp *toolchainPkgs, target *types.Func, d lin
 
 func ruleGCTarget(c *Ctx) {
 	c.Rule("GC-TARGET", "ReadFile decodes into memory of the caller's real struct type: either the caller's own pointer with its element type, or a fresh allocation of the value's type", 2)
+	if rfDecide(c, "target") {
+		return
+	}
 	P := c.P
 	s := findReadFile(P)
 	if !c.Anchor(s.fn != nil && s.memclr != nil, "typedmemclr(rtyp, p) in ReadFile") {
